@@ -170,6 +170,7 @@ func (o *epOwner) ReleaseUdpConnStateTuples(keys []bpfTuplesKey) error {
 
 func epRunOne(b *epBehaviour, res *verifutil.Result) {
 	pool := NewUdpEndpointPool()
+	time.Sleep(125 * time.Millisecond) // the events happen between two janitor ticks, never at the instant of one
 	defer pool.Close()
 	nd := &epDialer{}
 	log := verifLogger()
